@@ -18,6 +18,17 @@ type symref struct {
 	idx   sym
 }
 
+// norm widens the index to 64 bits so lengths are representable.
+func (r symref) norm() symref {
+	if r.idx.t.sort.w == 64 {
+		return r
+	}
+	if kindSigned(r.idx.k) {
+		return symref{r.elems, symConvNum(r.idx, types.Int).(sym)}
+	}
+	return symref{r.elems, symConvNum(r.idx, types.Uint).(sym)}
+}
+
 func (r symref) boundsCheck(in *interpreter) {
 	tt := r.idx.t.tt
 	w := r.idx.t.sort.w
@@ -36,6 +47,7 @@ func (r symref) boundsCheck(in *interpreter) {
 // load reads elems[idx]: an if-then-else chain for scalar elements
 // (run-length compressed), a fork over indices otherwise.
 func (r symref) load(in *interpreter) value {
+	r = r.norm()
 	r.boundsCheck(in)
 	if len(r.elems) == 1 {
 		return r.elems[0]
@@ -102,6 +114,7 @@ func sameScalar(a, b value) bool {
 
 // resolve forks over the feasible indices and returns a concrete address.
 func (r symref) resolve(in *interpreter) *value {
+	r = r.norm()
 	r.boundsCheck(in)
 	return r.resolveChecked(in)
 }
